@@ -12,11 +12,17 @@ import (
 // Pairing compares original and decoded values structurally while keeping, across any number of
 // values (a whole stream), the pairing original pointer <-> decoded pointer, which must stay a bijection.
 type Pairing struct {
-	o2d, d2o map[uintptr]uintptr
+	o2d, d2o map[ptrKey]uintptr
+}
+
+// ptrKey identifies an object by address and type (a struct and its first field share an address).
+type ptrKey struct {
+	p uintptr
+	t reflect.Type
 }
 
 // NewPairing builds an empty pairing.
-func NewPairing() *Pairing { return &Pairing{map[uintptr]uintptr{}, map[uintptr]uintptr{}} }
+func NewPairing() *Pairing { return &Pairing{map[ptrKey]uintptr{}, map[ptrKey]uintptr{}} }
 
 func unwrapIface(v reflect.Value) reflect.Value {
 	for v.IsValid() && v.Kind() == reflect.Interface {
@@ -64,9 +70,9 @@ func (p *Pairing) Cmp(o, d reflect.Value, path string) string {
 		if d.Kind() != reflect.Ptr || d.Type() != o.Type() {
 			return fmt.Sprintf("%s: decoded %v where %v was sent", path, d.Type(), o.Type())
 		}
-		op, dp := o.Pointer(), d.Pointer()
+		op, dp := ptrKey{o.Pointer(), o.Type()}, ptrKey{d.Pointer(), d.Type()}
 		if x, ok := p.o2d[op]; ok {
-			if x != dp {
+			if x != dp.p {
 				return fmt.Sprintf("%s: an object sent twice (by reference) came back as two distinct objects", path)
 			}
 			return ""
@@ -74,7 +80,7 @@ func (p *Pairing) Cmp(o, d reflect.Value, path string) string {
 		if _, ok := p.d2o[dp]; ok {
 			return fmt.Sprintf("%s: two distinct objects came back as one object", path)
 		}
-		p.o2d[op], p.d2o[dp] = dp, op
+		p.o2d[op], p.d2o[dp] = dp.p, op.p
 		return p.fields(o.Elem(), d.Elem(), path)
 	case o.Kind() == reflect.Ptr:
 		if d.Kind() == reflect.Ptr {
